@@ -569,5 +569,66 @@ func runG6(p *an.Prog, r *an.Result) {
 			}
 		})
 	}
+	// and the compile step above it: every render tree comes from compiling what Parse returned for the source
+	if cf := p.Func("(render.Config).Compile"); cf != nil {
+		cname := an.FuncName(cf)
+		an.EachInstr(cf, func(in ssa.Instruction) {
+			ret, ok := in.(*ssa.Return)
+			if !ok {
+				return
+			}
+			r.Counts["returns"]++
+			res := resultsOf(ret)
+			fromParse, other := false, ""
+			isParseResult := func(v ssa.Value) bool {
+				if ex, ok := v.(*ssa.Extract); ok && ex.Index == 0 {
+					if c, ok := ex.Tuple.(*ssa.Call); ok && c.Call.StaticCallee() == fn {
+						return true
+					}
+				}
+				return false
+			}
+			for _, o := range an.Origins(res[0], an.StepValue) {
+				if c, ok := o.(*ssa.Const); ok && c.IsNil() {
+					continue
+				}
+				// the result of a compile function of the module applied to the tree Parse returned
+				var call *ssa.Call
+				switch x := o.(type) {
+				case *ssa.Call:
+					call = x
+				case *ssa.Extract:
+					call, _ = x.Tuple.(*ssa.Call)
+				}
+				okTree := false
+				if call != nil {
+					if callee := call.Call.StaticCallee(); callee != nil && p.InModule(callee) {
+						for _, a := range call.Call.Args {
+							if an.Reaches(a, an.StepValue, isParseResult) {
+								okTree = true
+							}
+						}
+					}
+				}
+				if okTree {
+					fromParse = true
+				} else {
+					other = describe(p, o)
+				}
+			}
+			switch {
+			case other != "":
+				r.Bad(cname, "a render tree that was not compiled from the parsed source", ret.Pos(), fmt.Sprintf("Compile can return %s, which does not derive from what Parse returned: some source is answered without being tokenised under the configured delimiters", other))
+			case fromParse:
+				r.OK(cname, "compileNode(Parse(source, loc))", ret.Pos(), "")
+			default:
+				if an.IsNilConst(res[len(res)-1]) {
+					r.Bad(cname, "success without a compiled tree", ret.Pos(), "")
+				} else {
+					r.OK(cname, "error return", ret.Pos(), "")
+				}
+			}
+		})
+	}
 	r.Floor("returns", 1)
 }
